@@ -68,3 +68,20 @@ contract(
              "asserts": [("loose-deleted-after-install", "self.delete_loose_object(obj.id)", [SAFE]),
                          ("old-pack-removed-after-install", "self._remove_pack(pack)", [SAFE])]},
 )
+
+# ---- the reachability walk, step by step: whatever object is processed, all its children end up in `reachable` -------
+# (worklist STEP; that the walk then yields the whole closure is the usual worklist argument: every member of `reachable`
+#  is queued when it is added, the loop ends only on an empty queue - stated, assumed, and bounded-checked end to end)
+contract(
+    prop=["C10"], file=GC, func="find_reachable_objects",
+    params={"object_store": "opaque", "refs_container": "opaque", "include_reflogs": "opaque", "progress": "opaque"},
+    returns="set[opaque]", raises={ANY: None},
+    loops={
+        1: dict(invariant=["True"], types={"reachable": "set[opaque]", "pending": "opaque"}),
+        2: dict(invariant=["True"], types={"reachable": "set[opaque]", "pending": "opaque"}),
+        3: dict(invariant=["obj.tree in reachable", "all(elem(_seq3, j) in reachable for j in range(0, _it3))"], types={"reachable": "set[opaque]", "pending": "opaque"}),
+        4: dict(invariant=["all(elem(_seq4, j).sha in reachable for j in range(0, _it4))"], types={"reachable": "set[opaque]", "pending": "opaque"}),
+    },
+    options={"asserts": [("tag-target-marked", ">if obj.object[1] not in reachable:", ["obj.object[1] in reachable"]),
+                         ("ref-target-marked", ">if sha and sha not in reachable:", ["not sha or sha in reachable"])]},
+)
